@@ -4,6 +4,7 @@ import Holpy.C12.Proofs
 import Holpy.C12.Exec
 import Holpy.C12.Exec2
 import Holpy.C12.Reread
+import Holpy.C12.Complete
 /-
 C12 — property theorems (statements live here, helper lemmas in Proofs / Exec / Exec2).
 
@@ -11,7 +12,8 @@ Model = `logic/basic.py` with the fixes C12-1..4.  Every theorem is for an arbit
 lazy-import table, module bodies), an arbitrary library, arbitrary timestamps and arbitrary fuel.
 Histories: `Op.load` (with or without an injected fault), `Op.imp` (import of a Python module that
 may call load_theory), `Op.touch` (os.utime, forwards or backwards), `Op.reloadMeta`.  `Op.edit`
-(new file contents) is excluded from the theorems — it is covered by the subprocess oracle.
+(new file contents) is excluded from the theorems (see `stale_imports_counterexample`); edits that keep the
+imports are covered by the subprocess oracle and the model correspondence.
 -/
 namespace Holpy.C12
 
@@ -55,6 +57,60 @@ example :
         = some [10, 11, 20, 21]
     ∧ specLoad exWorld (initState [1, 2, 3] exFiles).lib 5 3 .none = .ok [10, 11, 20, 21] :=
   ⟨by decide, by decide, by rfl⟩
+
+/-- FULL statement for a healthy library (no item makes the loader raise, the import graph passes the cycle
+    check, import orders exist, modules only load theories of the library), every theory `n` of the library
+    and every limit: after ANY content-preserving history, the outcome of `load_theory(n, limit)` IS the
+    specification — it returns normally exactly when the specification does, `theory.thy` is then the
+    specified item list, and the only error is "limit not found", raised exactly when the specification
+    says so.  (`some .fuel`: the model ran out of fuel; Python has no counterpart.)  In particular a load
+    never fails because of what happened before (the fresh-process `load_theory('smt')` defect). -/
+theorem load_eq_spec (W : World) (names : List Name) (files : Name → File) (h : List Op)
+    (hh : ∀ o ∈ h, o.keepsContent) (fuel : Nat) (n : Name) (lim : Limit)
+    (hH : Healthy W (initState names files).lib) (hn : n ∈ names) :
+    let L := (initState names files).lib
+    let r := exec W none fuel (.load n lim) (run W fuel h (initState names files))
+    r.1 = some .fuel ∨ ∀ k, specLoad W L k n lim ≠ .error .fuel →
+      specLoad W L k n lim = (match r.1 with | none => .ok (r.2.thy.getD []) | some e => .error e) := by
+  intro L r
+  have hi : Inv W L (run W fuel h (initState names files)) := run_inv W L fuel h _ hh (init_inv W names files)
+  cases fuel with
+  | zero => exact Or.inl rfl
+  | succ f =>
+    have hok := exec_ok W L hH (f + 1) (.load n lim) _ hi hn
+    rcases hok with (h0 | h0) | ⟨h0, _⟩
+    · refine Or.inr fun k hk => ?_
+      have := load_eq_spec_partial W names files h hh (f + 1) n lim h0 k hk
+      show specLoad W L k n lim = (match r.1 with | none => .ok (r.2.thy.getD []) | some e => .error e)
+      rw [show r.1 = none from h0]
+      exact this
+    · exact Or.inl h0
+    · refine Or.inr fun k hk => ?_
+      have := loadBody_limit W L hH (exec_post W L none f) (exec_ok W L hH f) n lim hn hi h0 k hk
+      show specLoad W L k n lim = (match r.1 with | none => .ok (r.2.thy.getD []) | some e => .error e)
+      rw [show r.1 = some .limit from h0]
+      exact this
+
+/-- the example library is healthy -/
+example : Healthy exWorld (initState [1, 2, 3] exFiles).lib where
+  noRaise := by
+    intro i ctx
+    unfold exWorld
+    simp only []
+    split
+    · intro h; cases h
+    · split
+      · split <;> (intro h; cases h)
+      · intro h; cases h
+  topo := by decide
+  orders := by decide
+  modLoads := by
+    intro m n hm
+    unfold exWorld at hm
+    simp only [] at hm
+    split at hm
+    · simp at hm; subst hm; decide
+    · simp at hm
 
 /-- The same holds in the middle of anything: the invariant "every stamped cache entry holds exactly the
     specified parse of its file" survives every step of every history, including steps that raise. -/
@@ -168,6 +224,33 @@ example :
     ∧ (exec exWorld none 50 (.ltc 1) { s with log := [] }).2.log = [.readFile 1]
     ∧ (exec exWorld none 50 (.ltc 1) s).1 = none := by
   refine ⟨⟨_, rfl, rfl⟩, rfl, by decide, by decide⟩
+
+/-! ### known finding: the imports of an edited file are not re-read -/
+
+def siWorld : World :=
+  { parse := fun i ctx => if i = 20 then (if 10 ∈ ctx then .ok else .err) else .ok
+    lazyOf := fun _ => none
+    body := fun _ => [] }
+
+def siFiles : Name → File := fun n =>
+  if n = 1 then { imports := [], items := [10], mtime := 5 }
+  else { imports := [1], items := [20], mtime := 5 }
+
+/-- KNOWN FINDING (stale-imports): `load 2; edit 2.json so that it no longer imports 1; load 2` leaves the
+    theory built on theory 1 (`[10, 20]`) although the files now specify `[]` (item 20 does not parse without
+    item 10): `load_theory_cache` re-reads the content of a changed file but keeps the imports read by
+    `load_metadata`.  This is why `load_eq_spec` excludes `Op.edit`. -/
+theorem stale_imports_counterexample :
+    let s := run siWorld 50 [.load 2 .none none, .edit 2 [] [20] 9] (initState [1, 2] siFiles)
+    (exec siWorld none 50 (.load 2 .none) s).1 = none
+    ∧ (exec siWorld none 50 (.load 2 .none) s).2.thy = some [10, 20]
+    ∧ specLoad siWorld s.lib 5 2 .none = .ok [] :=
+  ⟨by decide, by decide, by rfl⟩
+
+/-- … and `basic.load_metadata()` after the edit repairs it -/
+example :
+    let s := run siWorld 50 [.load 2 .none none, .edit 2 [] [20] 9, .reloadMeta] (initState [1, 2] siFiles)
+    (exec siWorld none 50 (.load 2 .none) s).2.thy = some [] := by decide
 
 /-! ### the tables generated from the sources -/
 
